@@ -107,6 +107,11 @@ class TerminalPredicate(BaseModel):
     logical_operator: LogicalOperatorEnum
     right_term: Union[float, int, str, tuple, Identifier]
 
+    class Config:
+        # keep a literal's own type: without this the union is tried left to
+        # right and "02134" or 9007199254740993 are coerced to float
+        smart_union = True
+
 
 class RecursivePredicate(BaseModel):
     """
